@@ -4104,10 +4104,13 @@ fn fill_module_dependencies(
         ImportKind::TsType | ImportKind::TsModuleAugmentation
       ) {
         if dep.maybe_type.is_none() {
-          dep.maybe_type = resolve(
+          // a type-only import carries its `type` attribute too: give the
+          // resolver the same chance to redirect it as for a code import
+          dep.maybe_type = resolve_with_attribute_type(
             &import.specifier,
             import.specifier_range.clone(),
             ResolutionKind::Types,
+            dep.maybe_attribute_type.as_deref(),
             jsr_url_provider,
             maybe_resolver,
           );
